@@ -24,6 +24,12 @@ CHECKS = {
             "file sizes and listing order are solver variables"),
     "C10": ("5/C10", "symbolic execution (symx): pairwise equality of creators' metafiles and of all hashers' outputs on the same symbolic payload; z3",
             "file sizes and listing order are solver variables"),
+    "C04": ("5/C04-C05-C16", "symbolic execution (symx) of Checker/FeedChecker/HashChecker/FileHasher on symbolic sizes and damage positions; z3 decides 'result < 100'",
+            "file sizes, truncation lengths and flip offsets are solver variables; damage kind per file is a configuration; needs A-hash/A-generic"),
+    "C05": ("5/C04-C05-C16", "symbolic execution (symx) of Checker.find_root/check_paths/FeedChecker/HashChecker on reference-encoder and own-creator metafiles; z3 + QF_FP lemma L-pct",
+            "file sizes are solver variables; both content-path choices; float rounding closed by a bit-precise z3 lemma"),
+    "C16": ("5/C04-C05-C16", "symbolic execution (symx) of the recheck iterators vs a reference piece table; percentage compared as exact rational; z3",
+            "file sizes, truncation lengths and flip offsets are solver variables"),
     "C15": ("5/C15", "symbolic execution (symx) of TorrentFile(align=True)/Hasher vs gap arithmetic and BEP 3 reference; z3",
             "file sizes and listing order are solver variables; modulo by a concrete piece length stays linear"),
 }
